@@ -178,7 +178,7 @@ def scene_split_candidate(draw):
     nmodes = draw(st.integers(2, 3))
     base = draw(st.sampled_from([300, 1000, 2500, 6000, 9700, 12000, 30000]))
     min_sep = draw(st.sampled_from([100, 250, 250, 500, 1000]))
-    seps = [draw(st.sampled_from([0.5, 0.8, 1.0, 1.2, 1.6, 2.0, 3.0])) * min_sep
+    seps = [draw(st.sampled_from([0.6, 0.9, 1.0, 1.1, 1.3, 1.6, 2.0, 2.0, 3.0, 3.0])) * min_sep
             for _ in range(nmodes - 1)]
     thick = draw(st.sampled_from([0, 20, 60, 120]))
     trend = [draw(st.sampled_from([0, 0, 150, -150, 400, -400])) for _ in range(nmodes)]
